@@ -38,6 +38,7 @@ package main
 //@   loop 1 invariant#nonnil forall j in 0..len(recs) :: recs[j] != nil                                            [C18]
 //@   loop 1 invariant#freshrecs rg(recs) == 0 || fresh(recs)
 //@   call parseRecipient#0 requires arg0 == scanner.$cur && iskeyline(arg0)                                         [C18]
+//@   call warningf#1 requires lastret("sshKeyType",1,1)                                                              [C18]
 //@   call warningf#1 requires (lastret("sshKeyType",1,0) != "ssh-rsa" && lastret("sshKeyType",1,0) != "ssh-ed25519") || lastret("ParseAuthorizedKey",1,4) == nil   [C18]
 //@   call fmt.Errorf#4 requires len(arg1) == 2 && unboxstr(arg1[0]) == name && unboxint(arg1[1]) == n && n == scanner.$ln   [C18]
 //@   call fmt.Errorf#3 requires len(arg1) == 2 && unboxstr(arg1[0]) == name && unboxint(arg1[1]) == n   [C18]
